@@ -1,9 +1,11 @@
 package c11
 
 import (
+	"net"
 	"sort"
 	"time"
 
+	asnutil "github.com/libp2p/go-libp2p-asn-util"
 	"github.com/libp2p/go-libp2p/core/network"
 )
 
@@ -14,6 +16,9 @@ import (
 //     peer disconnected; from expiry until "collected for sure" (upper bound hi + gcSlack) it MAY
 //     still serve CONNECTs and MAY still count against the caps ("at the next collection");
 //   - a RESERVE whose answer the client never saw may or may not have produced a reservation;
+//   - "neither party reached the relay through another relay" is read per REQUEST: the connection that carried
+//     the destination's RESERVE and the one that carries the source's CONNECT must be direct (a destination that
+//     reserved directly and later is reachable only through an unlimited second relay is not driven);
 //   - a circuit is definitely open between the OK reply and the first event that can end it
 //     (an end closed/reset by the harness, a party disconnecting, the duration limit).
 const gcSlack = 2*time.Minute + 5*time.Second
@@ -113,7 +118,28 @@ func union(a, b []string) []string {
 	return out
 }
 
-type capCount struct{ def, defIP, c2, c2IP, may, mayIP int }
+// asnOf is the autonomous system the relay's library attributes to an address (0 for IPv4 and for
+// IPv6 addresses it does not know): an environment fact the model needs, not relay logic.
+func asnOf(ip string) uint32 {
+	p := net.ParseIP(ip)
+	if p == nil || p.To4() != nil {
+		return 0
+	}
+	return asnutil.AsnForIPv6(p)
+}
+
+func sameAS(a, b []string) bool {
+	for _, x := range a {
+		for _, y := range b {
+			if asnOf(x) != 0 && asnOf(x) == asnOf(y) {
+				return true
+			}
+		}
+	}
+	return false
+}
+
+type capCount struct{ def, defIP, defAS, c2, c2IP, c2AS, may, mayIP, mayAS int }
 
 // count tallies the reservations of peers other than `self` (and not in `skip`) over [t0,t1]:
 // def = certainly live and counted, c2 = certainly live but a refresh was refused, may = possibly
@@ -127,16 +153,23 @@ func (m *model) count(self int, ips []string, t0, t1 time.Duration, skip map[int
 		r := m.rsv[q]
 		live := r.sure && t1 < r.lo
 		onIP := len(r.ips) == 1 && len(ips) == 1 && r.ips[0] == ips[0]
+		onAS := len(r.ips) == 1 && len(ips) == 1 && asnOf(ips[0]) != 0 && asnOf(r.ips[0]) == asnOf(ips[0])
 		if live && r.counted == cntYes {
 			c.def++
 			if onIP {
 				c.defIP++
+			}
+			if onAS {
+				c.defAS++
 			}
 		}
 		if live && r.counted == cntRefused {
 			c.c2++
 			if onIP {
 				c.c2IP++
+			}
+			if onAS {
+				c.c2AS++
 			}
 		}
 		if t0 <= r.hi+gcSlack {
@@ -146,6 +179,9 @@ func (m *model) count(self int, ips []string, t0, t1 time.Duration, skip map[int
 					c.mayIP++
 					break
 				}
+			}
+			if sameAS(r.ips, ips) {
+				c.mayAS++
 			}
 		}
 	}
